@@ -659,6 +659,11 @@ Definition oracle_model_locale (op : bytes) (args : list bytes) : option bytes :
           | Ok x, Ok y => if loc_eqb x y && beqb (loc_to_string x) (loc_to_string y) then bs "SAME" else bs "DIFF"
           | Err _, Err _ => bs "BOTH-ERR"
           | _, _ => bs "DIFF" end)
+  else if beqb op (bs "ext_meta") then
+    Some (match extmap_from_bytes (arg_n 0 args), extmap_from_bytes (arg_n 1 args) with
+          | Ok x, Ok y => if ext_eqb x y && beqb (ext_to_string x) (ext_to_string y) then bs "SAME" else bs "DIFF"
+          | Err _, Err _ => bs "BOTH-ERR"
+          | _, _ => bs "DIFF" end)
   else if beqb op (bs "li_meta") then
     Some (match langid_from_bytes (arg_n 0 args), langid_from_bytes (arg_n 1 args) with
           | Ok x, Ok y => if li_eqb x y && beqb (li_to_string x) (li_to_string y) then bs "SAME" else bs "DIFF"
@@ -727,6 +732,7 @@ Definition oracle_spec_locale (op : bytes) (args : list bytes) (impl : bytes) : 
   else if beqb op (bs "big") then Some (beqb impl (bs "DONE"))
   else if beqb op (bs "loc_meta") then Some (beqb impl (bs "SAME") || beqb impl (bs "BOTH-ERR"))
   else if beqb op (bs "li_meta") then Some (beqb impl (bs "SAME") || beqb impl (bs "BOTH-ERR"))
+  else if beqb op (bs "ext_meta") then Some (beqb impl (bs "SAME") || beqb impl (bs "BOTH-ERR"))
   else if beqb op (bs "both") then
     Some (match spec_langid (split a) with
           | Some _ => beqb impl (bs "LI-OK LOC-SAME")
